@@ -101,4 +101,72 @@ theorem feedTrace_eq (ctx : Ctx) (r : Recv) (s : List Byte) :
   | cons c cs ih =>
     simp only [feedTrace, feed, delivered, ih, List.map_cons]
 
+/-! ### round 3b: start = stop, receiver inside a frame: the next frame is skipped as garbage -/
+
+theorem garbage_statuses (ctx : Ctx) (r : Recv) (bs : List Byte) (hr : Idle r)
+    (hb : ∀ b ∈ bs, b ≠ ctx.start) : ∀ s ∈ (feed ctx r bs).2, s = GARBAGE := by
+  induction bs generalizing r with
+  | nil => simp [feed]
+  | cons c cs ih =>
+    have hc : c ≠ ctx.start := hb c (by simp)
+    have hstep : Idle (newchar ctx r c).1 ∧ (newchar ctx r c).2 = GARBAGE := by
+      obtain ⟨st, crc, line, cap⟩ := r
+      rcases hr with hr | hr <;> simp only at hr <;> subst hr
+      · rw [newchar_s0]; simp [hc, Idle]
+      · rw [newchar_s4]; simp [hc, Idle]
+    have := ih (newchar ctx r c).1 hstep.1 (fun b hb' => hb b (by simp [hb']))
+    intro s hs
+    simp only [feed, List.mem_cons] at hs
+    rcases hs with hs | hs
+    · rw [hs]; exact hstep.2
+    · exact this s hs
+
+theorem inframe_swallow (ctx : Ctx) (he : ctx.start = ctx.stop) (crc : BitVec 8) (line : List Byte) (cp : Nat)
+    (hl : line ≠ []) (body : List Byte) (hnm : ∀ b ∈ body, b ≠ ctx.start) :
+    delivered ctx ⟨.s1, crc, line, cp⟩ (ctx.start :: (body ++ [ctx.stop])) = delivered ctx ⟨.s1, crc, line, cp⟩ [ctx.start] ∧
+    OVERFLOW ∉ (feed ctx ⟨.s1, crc, line, cp⟩ (ctx.start :: (body ++ [ctx.stop]))).2 := by
+  have hemp : line.isEmpty = false := by cases line <;> simp_all
+  have hidle : Idle (newchar ctx ⟨.s1, crc, line, cp⟩ ctx.start).1 ∧ (newchar ctx ⟨.s1, crc, line, cp⟩ ctx.start).2 ≠ OVERFLOW := by
+    rw [newchar_s1]
+    simp only [he, ne_eq, not_true_eq_false, and_false, if_false, hemp, Bool.false_eq_true, if_true, stopL]
+    split <;> exact ⟨Or.inl rfl, by simp [CRC_ERROR, NEWPACKAGE, OVERFLOW]⟩
+  obtain ⟨g1, g2⟩ := garbage_run ctx _ body hidle.1 hnm
+  have g3 := garbage_statuses ctx _ body hidle.1 hnm
+  have hlast := idle_no_delivery ctx _ ctx.stop g1
+  have hlast2 : (newchar ctx (feed ctx (newchar ctx ⟨.s1, crc, line, cp⟩ ctx.start).1 body).1 ctx.stop).2 = CONTINUE := by
+    rw [← he, newchar_start_idle ctx _ g1]
+  refine ⟨?_, ?_⟩
+  · simp only [delivered, delivered_append, g2, List.nil_append]
+    simp only [hlast, if_false]
+  · simp only [feed, feed_append, List.mem_cons, List.mem_append, not_or, List.not_mem_nil, or_false]
+    refine ⟨fun h => hidle.2 h.symm, fun h => ?_, fun h => ?_⟩
+    · have := g3 _ h; revert this; decide
+    · rw [hlast2] at h; revert h; decide
+
+theorem stsChar_O (x : Int) (h : stsChar x = 'O') : x = OVERFLOW := by
+  by_cases h6 : x = OVERFLOW
+  · exact h6
+  · exfalso
+    unfold stsChar at h
+    rw [if_neg h6] at h
+    by_cases h1 : x = CONTINUE
+    · rw [if_pos h1] at h; exact absurd h (by decide)
+    rw [if_neg h1] at h
+    by_cases h2 : x = NEWPACKAGE
+    · rw [if_pos h2] at h; exact absurd h (by decide)
+    rw [if_neg h2] at h
+    by_cases h3 : x = FORCE_RESTART
+    · rw [if_pos h3] at h; exact absurd h (by decide)
+    rw [if_neg h3] at h
+    by_cases h4 : x = GARBAGE
+    · rw [if_pos h4] at h; exact absurd h (by decide)
+    rw [if_neg h4] at h
+    by_cases h5 : x = CRC_ERROR
+    · rw [if_pos h5] at h; exact absurd h (by decide)
+    rw [if_neg h5] at h
+    by_cases h7 : x = STUFFING_ERROR
+    · rw [if_pos h7] at h; exact absurd h (by decide)
+    rw [if_neg h7] at h
+    exact absurd h (by decide)
+
 end Igris.Gstuff
